@@ -88,6 +88,14 @@ func NewServer(be Backend) *Server {
 // Serve accepts incoming connections on the Listener l.
 func (s *Server) Serve(l net.Listener) error {
 	s.locker.Lock()
+	select {
+	case <-s.done:
+		// Close or Shutdown was called before: nobody would ever close
+		// this listener.
+		s.locker.Unlock()
+		return ErrServerClosed
+	default:
+	}
 	s.listeners = append(s.listeners, l)
 	s.locker.Unlock()
 
